@@ -1179,6 +1179,18 @@ func c13Rerank(c *Ctx) {
 	// returns reached without any blending (early exits) hand back the input
 	for _, ret := range ssau.ReturnsOf(fn) {
 		rv := ssau.ResultValue(ret, ri)
+		// a helper that sorts the list in place and hands it back
+		for d := 0; d < 3; d++ {
+			call, ok := ssau.Strip(rv).(*ssa.Call)
+			if !ok {
+				break
+			}
+			arg := ssau.SameListHelperArg(call)
+			if arg == nil {
+				break
+			}
+			rv = arg
+		}
 		e := f.E(rv)
 		_, same := blended[e]
 		if !same {
